@@ -1490,3 +1490,411 @@ func TestVerifC06SigV4Cross(t *testing.T) {
 		vfRunVariants(vf, rt, v, "sigx", vars, hard, vfDrawLimit(rt), descr)
 	})
 }
+
+// ---------------------------------------------------------------- update histories (Inherit + Close of the previous generation)
+
+// vfInhCfg is the configuration of one generation.
+type vfInhCfg struct {
+	Users []vfUser // nil: no basicAuth section
+	File  string
+	JWT   *vfJWTCfg
+	Sig   *vfSigCfg
+	Rules []vfHdrRule
+}
+
+func (c *vfInhCfg) spec() map[string]interface{} {
+	m := map[string]interface{}{}
+	if c.Users != nil {
+		m["basicAuth"] = map[string]interface{}{"mode": "FILE", "userFile": c.File}
+	}
+	if c.JWT != nil {
+		m["jwt"] = c.JWT.spec()["jwt"]
+	}
+	if c.Sig != nil {
+		m["signature"] = c.Sig.spec()
+	}
+	if len(c.Rules) > 0 {
+		m["headers"] = vfRulesSpec(c.Rules)
+	}
+	return m
+}
+
+// vfInhPickupWait bounds the wait for a changed user file to be noticed (the watcher is event
+// driven, normally a few milliseconds; generous for a busy machine).
+const vfInhPickupWait = 8 * time.Second
+
+type vfInhProbe struct {
+	User, Pass string
+	Want       bool
+}
+
+func TestVerifC06Inherit(t *testing.T) {
+	vf := vfBegin(t, "C06")
+	defer vf.End()
+	old := jwt.TimeFunc
+	defer func() { jwt.TimeFunc = old }()
+	vfClockProbe(t)
+	rapid.Check(t, func(rt *rapid.T) {
+		now := int64(1_700_000_000) + int64(rapid.IntRange(0, 10_000_000).Draw(rt, "now"))
+		jwt.TimeFunc = func() time.Time { return time.Unix(now, 0) }
+		salt := []byte("vf")
+		var files []string
+		var live []*Validator
+		defer func() {
+			for _, v := range live {
+				v.Close()
+			}
+			for _, f := range files {
+				os.Remove(f)
+			}
+		}()
+		newFile := func(us []vfUser) string {
+			f, err := vfWriteHtpasswd(us, salt)
+			if err != nil {
+				rt.Fatalf("VF-INCONCLUSIVE cannot write htpasswd file: %v", err)
+			}
+			files = append(files, f)
+			return f
+		}
+
+		// ---- generation 1. Basic and signature both want the Authorization header: one of them.
+		scenario := rapid.SampledFrom([]string{"basic", "basic", "basic+jwt", "jwt", "signature"}).Draw(rt, "scenario")
+		var c vfInhCfg
+		if strings.HasPrefix(scenario, "basic") {
+			c.Users = vfGenUsers(rt, 4)
+			c.File = newFile(c.Users)
+		}
+		if strings.Contains(scenario, "jwt") {
+			j := vfGenJWTCfg(rt, false)
+			if c.Users != nil && j.Cookie == "" {
+				j.Cookie = "auth"
+			}
+			c.JWT = &j
+		}
+		if scenario == "signature" {
+			s := vfGenSigCfg(rt)
+			c.Sig = &s
+		}
+		v, y, err := vfC06NewValidator(c.spec())
+		if err != nil {
+			rt.Fatalf("VF-INCONCLUSIVE generated spec rejected: %v\n%s", err, y)
+		}
+		live = []*Validator{v}
+		var hist []string
+		hist = append(hist, "generation 1 (Init):\n"+y)
+		descr := func() string {
+			d := strings.Join(hist, "\n") + fmt.Sprintf("\nnow=%d", now)
+			if c.Users != nil {
+				d += " users(now in " + c.File + ")=" + vfUsersString(c.Users)
+			}
+			if c.JWT != nil {
+				d += fmt.Sprintf(" jwt-secret=%x", c.JWT.Secret)
+			}
+			return d
+		}
+
+		// stale credentials collected along the history: each must be rejected from then on
+		type stale struct {
+			label string
+			user  vfUser    // basic: a pair that is no longer configured
+			jwt   *vfJWTCfg // a JWT configuration that was replaced
+			key   *vfKey    // an access key that was removed or whose secret was rotated
+		}
+		var stales []stale
+		changed, inherited := false, 0
+
+		// traffic: a request with the current credentials, the stale ones, and a few plain mutations
+		traffic := func(phase string) bool {
+			build := func(u *vfUser, j *vfJWTCfg, k *vfKey) (vfC06Req, *vfSigned) {
+				r := vfGenCarrier(rt, vfCarrierOpts{MaxBody: 512})
+				r.del("Authorization")
+				if len(c.Rules) > 0 {
+					vfSatisfyRules(rt, &r, c.Rules)
+				}
+				if j != nil {
+					tok := vfGenValidTok(rt, *j, now)
+					vfPlaceToken(rt, &r, *j, tok.String(), j.Cookie != "")
+				}
+				if u != nil {
+					r.set("Authorization", vfBasicHeader(u.Name, u.Pass))
+				}
+				if k != nil {
+					plan, _ := vfGenSigPlan(rt, *c.Sig, "valid", rapid.Bool().Draw(rt, "presign"))
+					plan.KeyID, plan.Secret = k.ID, k.Secret
+					s, err := vfSignWithRepo(*c.Sig, plan, r, time.Now())
+					if err != nil {
+						rt.Fatalf("VF-INCONCLUSIVE client-side signing failed: %v", err)
+					}
+					s.Verdict = vfPlanVerdict(*c.Sig, plan)
+					return s.Req, s
+				}
+				return r, nil
+			}
+			verdict := func(r *vfC06Req, s *vfSigned) (vfVerdict, vfVerdict) {
+				cc := vfComboCfg{Rules: c.Rules, JWT: c.JWT, Sig: c.Sig, Users: c.Users}
+				return vfComboVerdicts(&cc, s, r, now)
+			}
+			var cu *vfUser
+			var ck *vfKey
+			if c.Users != nil {
+				u := c.Users[rapid.IntRange(0, len(c.Users)-1).Draw(rt, "user")]
+				cu = &u
+			}
+			if c.Sig != nil {
+				k := c.Sig.Keys[rapid.IntRange(0, len(c.Sig.Keys)-1).Draw(rt, "key")]
+				ck = &k
+			}
+			base, bs := build(cu, c.JWT, ck)
+			mk := func(label string, r vfC06Req, s *vfSigned) vfVariant {
+				h, cr := verdict(&r, s)
+				return vfVariant{Label: "inherit:" + label, Req: r, Hdr: h, Cred: cr}
+			}
+			vars := []vfVariant{mk(phase+"-current-credentials", base, bs)}
+			for _, st := range stales {
+				var r vfC06Req
+				var s *vfSigned
+				switch {
+				case st.jwt != nil:
+					r, s = build(cu, st.jwt, ck)
+				case st.key != nil:
+					// signed with a key the current configuration does not have (any more)
+					r2 := vfGenCarrier(rt, vfCarrierOpts{MaxBody: 512})
+					if len(c.Rules) > 0 {
+						vfSatisfyRules(rt, &r2, c.Rules)
+					}
+					plan, _ := vfGenSigPlan(rt, *c.Sig, "valid", false)
+					plan.KeyID, plan.Secret = st.key.ID, st.key.Secret
+					ss, err := vfSignWithRepo(*c.Sig, plan, r2, time.Now())
+					if err != nil {
+						rt.Fatalf("VF-INCONCLUSIVE client-side signing failed: %v", err)
+					}
+					ss.Verdict = vfPlanVerdict(*c.Sig, plan)
+					r, s = ss.Req, ss
+				default:
+					u := st.user
+					r, s = build(&u, c.JWT, ck)
+				}
+				x := mk(st.label, r, s)
+				x.Covered = x.want() == vfReject
+				vars = append(vars, x)
+			}
+			if cu != nil {
+				m := base.clone()
+				m.set("Authorization", vfBasicHeader(cu.Name, cu.Pass+"x"))
+				x := mk("wrong-password", m, bs)
+				x.Covered = x.want() == vfReject
+				vars = append(vars, x)
+			}
+			for i := range vars {
+				x := &vars[i]
+				vf.Class(x.Label, "inherit:oracle-"+x.want().String())
+				if vfCompare(vf, rt, live[0], x, 0, descr) {
+					return true
+				}
+			}
+			return false
+		}
+
+		if rapid.Bool().Draw(rt, "trafficBeforeUpdate") {
+			if traffic("gen1") {
+				return
+			}
+		}
+
+		// ---- pipeline updates
+		nup := rapid.IntRange(1, 3).Draw(rt, "updates")
+		var twin *Validator
+		for g := 0; g < nup; g++ {
+			n := c
+			what := []string{}
+			// "any change" of the pipeline: here, header rules come and go
+			if rapid.Bool().Draw(rt, "toggleRules") {
+				if len(n.Rules) > 0 {
+					n.Rules = nil
+				} else {
+					n.Rules = vfGenRules(rt)
+				}
+				what = append(what, "header rules toggled")
+			}
+			if c.Users != nil && vfOneIn(rt, 5, "otherFile") {
+				us := vfGenUsers(rt, 4)
+				n.Users, n.File = us, newFile(us)
+				for _, u := range c.Users {
+					keep := false
+					for _, w := range us {
+						if w == u || (w.Name == u.Name && w.Pass == u.Pass) {
+							keep = true
+						}
+					}
+					if !keep {
+						stales = append(stales, stale{label: "basic-user-of-previous-file", user: u})
+					}
+				}
+				changed = true
+				what = append(what, "basicAuth points to another user file")
+			}
+			if c.JWT != nil && rapid.Bool().Draw(rt, "rotateJWT") {
+				j := vfGenJWTCfg(rt, false)
+				j.Cookie = c.JWT.Cookie
+				if string(j.Secret) != string(c.JWT.Secret) || j.Alg != c.JWT.Alg {
+					o := *c.JWT
+					stales = append(stales, stale{label: "jwt-of-previous-generation", jwt: &o})
+					changed = true
+				}
+				n.JWT = &j
+				what = append(what, "jwt secret/algorithm replaced")
+			}
+			if c.Sig != nil && rapid.Bool().Draw(rt, "rotateKeys") {
+				s := *c.Sig
+				s.Keys = append([]vfKey(nil), c.Sig.Keys...)
+				i := rapid.IntRange(0, len(s.Keys)-1).Draw(rt, "rotIdx")
+				o := s.Keys[i]
+				if len(s.Keys) > 1 && rapid.Bool().Draw(rt, "removeKey") {
+					s.Keys = append(s.Keys[:i], s.Keys[i+1:]...)
+					what = append(what, "access key "+o.ID+" removed")
+				} else {
+					s.Keys[i].Secret = o.Secret + "-rotated"
+					what = append(what, "secret of access key "+o.ID+" rotated")
+				}
+				stales = append(stales, stale{label: "signature-key-of-previous-generation", key: &o})
+				changed = true
+				n.Sig = &s
+			}
+			nv, ny, err := vfC06NextGeneration(n.spec(), live[0])
+			if err != nil {
+				rt.Fatalf("VF-INCONCLUSIVE generated spec rejected: %v\n%s", err, ny)
+			}
+			live[0] = nv
+			c = n
+			inherited++
+			hist = append(hist, fmt.Sprintf("generation %d := Inherit(generation %d), previous closed; %s:\n%s", g+2, g+1, strings.Join(what, ", "), ny))
+			if rapid.Bool().Draw(rt, "trafficAfterUpdate") || g == nup-1 {
+				if traffic(fmt.Sprintf("gen%d", g+2)) {
+					return
+				}
+			}
+		}
+		// a fresh twin of the last generation, built at the same moment: only consulted when the
+		// inherited generation does not notice a file change in time
+		if c.Users != nil {
+			var err error
+			twin, _, err = vfC06NewValidator(c.spec())
+			if err != nil {
+				rt.Fatalf("VF-INCONCLUSIVE twin spec rejected: %v", err)
+			}
+			live = append(live, twin)
+		}
+
+		// ---- the user file changes after the update(s)
+		if c.Users != nil {
+			nedit := rapid.IntRange(1, 2).Draw(rt, "fileEdits")
+			for e := 0; e < nedit; e++ {
+				before := append([]vfUser(nil), c.Users...)
+				after := append([]vfUser(nil), c.Users...)
+				edit := rapid.SampledFrom([]string{"remove-user", "change-password", "add-user"}).Draw(rt, "edit")
+				i := rapid.IntRange(0, len(after)-1).Draw(rt, "editIdx")
+				switch {
+				case edit == "remove-user" && len(after) > 1:
+					stales = append(stales, stale{label: "basic-revoked-user", user: after[i]})
+					after = append(after[:i], after[i+1:]...)
+				case edit == "add-user":
+					after = append(after, vfUser{Name: fmt.Sprintf("new%d-%s", e, after[i].Name), Pass: vfDrawPass(rt, false), Scheme: "sha"})
+				default:
+					edit = "change-password"
+					stales = append(stales, stale{label: "basic-old-password", user: after[i]})
+					after[i].Pass = after[i].Pass + rapid.SampledFrom([]string{"2", ":new", "é"}).Draw(rt, "newPwTail")
+					if after[i].Scheme == "plain" && !vfPlainOK(after[i].Pass) {
+						after[i].Scheme = "sha"
+					}
+				}
+				if err := vfRewriteHtpasswd(c.File, after, salt); err != nil {
+					rt.Fatalf("VF-INCONCLUSIVE cannot rewrite htpasswd file: %v", err)
+				}
+				c.Users = after
+				changed = true
+				hist = append(hist, fmt.Sprintf("user file %s rewritten in place (%s): %s -> %s", c.File, edit, vfUsersString(before), vfUsersString(after)))
+				vf.Class("inherit:file-" + edit)
+
+				// wait until the validator answers according to the file
+				var probes []vfInhProbe
+				for _, u := range after {
+					probes = append(probes, vfInhProbe{u.Name, u.Pass, true})
+				}
+				for _, u := range before {
+					still := false
+					for _, w := range after {
+						if w.Name == u.Name && w.Pass == u.Pass {
+							still = true
+						}
+					}
+					if !still {
+						probes = append(probes, vfInhProbe{u.Name, u.Pass, false})
+					}
+				}
+				consistent := func(v *Validator) (bool, string) {
+					for _, p := range probes {
+						r := vfC06Req{Method: "GET", Host: "example.com", Path: "/"}
+						if c.JWT != nil {
+							tok := vfTok{HdrAlg: c.JWT.Alg, SignAlg: c.JWT.Alg, Secret: c.JWT.Secret, Claims: map[string]interface{}{"sub": "probe"}}
+							r.set("Cookie", c.JWT.Cookie+"="+tok.String())
+						}
+						r.set("Authorization", vfBasicHeader(p.User, p.Pass))
+						if len(c.Rules) > 0 {
+							// deterministic choice: the first sendable value that satisfies each rule
+							for _, rule := range c.Rules {
+								for _, s := range vfRuleSent {
+									probe := vfC06Req{Hdr: []vfH{{rule.Name, s}}}
+									if vfHeaderVerdict(&probe, []vfHdrRule{rule}) == vfAccept {
+										r.add(rule.Name, s)
+										break
+									}
+								}
+							}
+							if vfHeaderVerdict(&r, c.Rules) != vfAccept {
+								continue // rule cannot be satisfied from the alphabet: this probe says nothing
+							}
+						}
+						out := vfC06Serve(v, &r, 0)
+						if out.Panic || out.Err != "" || (out.Result == "") != p.Want {
+							return false, fmt.Sprintf("user %q password %q: want accepted=%v, got %s", p.User, p.Pass, p.Want, out)
+						}
+					}
+					return true, ""
+				}
+				deadline := time.Now().Add(vfInhPickupWait)
+				ok, why := consistent(live[0])
+				for pause := time.Millisecond; !ok && time.Now().Before(deadline); {
+					time.Sleep(pause)
+					if pause < 100*time.Millisecond {
+						pause *= 2
+					}
+					ok, why = consistent(live[0])
+				}
+				if !ok {
+					// did a fresh validator of the same spec, created at the same moment, notice?
+					tok2, twhy := consistent(twin)
+					for !tok2 && time.Now().Before(deadline.Add(2*time.Second)) {
+						time.Sleep(50 * time.Millisecond)
+						tok2, twhy = consistent(twin)
+					}
+					if !tok2 {
+						rt.Fatalf("VF-INCONCLUSIVE neither the inherited generation nor a fresh twin noticed the changed user file within %s (file watching not working here?): %s / twin: %s\n%s", vfInhPickupWait, why, twhy, descr())
+					}
+					if vf.Violation(rt, "inherit:basic-file-change-not-noticed-after-update", "after %d update(s) the validator still answers from the old user file %s after %s, a fresh validator of the same spec created at the same time follows the file: %s\n%s", inherited, c.File, vfInhPickupWait, why, descr()) {
+						return
+					}
+				}
+				if traffic(fmt.Sprintf("after-edit%d", e+1)) {
+					return
+				}
+			}
+		}
+		vf.Class("inherit:scenario-"+scenario, fmt.Sprintf("inherit:updates=%d", inherited))
+		if changed {
+			vf.Class("inherit:credentials-changed-after-or-at-update")
+		}
+		vf.Case(inherited >= 1 && changed && len(stales) > 0, strings.Join(hist, "|")+fmt.Sprint(now), func() interface{} {
+			return map[string]interface{}{"check": "inherit", "history": hist, "stale_credentials_checked": len(stales)}
+		})
+	})
+}
